@@ -186,7 +186,7 @@ trait ValTx: ValT + Sized {
         } else {
             let f = f(self.try_as_f64()?);
             if f.is_finite() {
-                if isize::MIN as f64 <= f && f <= isize::MAX as f64 {
+                if isize::MIN as f64 <= f && f < isize::MAX as f64 {
                     Self::from(f as isize)
                 } else {
                     // print floating-point number without decimal places,
